@@ -426,6 +426,11 @@ where
         value: impl Borrow<Self::Input>,
     ) -> (usize, Self::Output) {
         let value = *value.borrow();
+        if value > self.u {
+            // All elements are smaller than value, so its predecessor is the
+            // last element; moreover, there is no zero of index value >> l
+            return self.pred_unchecked::<false>(self.u);
+        }
         let zeros_to_skip = value >> self.l;
         let mut bit_pos = self.high_bits.select_zero_unchecked(zeros_to_skip) - 1;
 
